@@ -135,6 +135,39 @@ def replay_mode(prop, path):
     return 0
 
 
+def grow_corpus(prop, exes, seed, iters):
+    """coverage-guided corpus growth on each build; the union goes to build/corpus-<prop>.json and into every pool (VERIF_CORPUS)"""
+    import subprocess
+    allnew, info = [], []
+    sd = core.scratch_dir()
+    for exe in exes:
+        out = os.path.join(sd, "grow.%d.json" % os.getpid())
+        p = subprocess.run([exe, "grow", "--seed", str(seed), "--iters", str(iters), "--out", out], stdout=subprocess.PIPE, stderr=subprocess.PIPE, env=core.ENV, cwd=core.VERIF, timeout=1800)
+        try:
+            info.append(json.loads(p.stdout.decode("latin-1").strip().splitlines()[-1]))
+            with open(out) as f:
+                for a in json.load(f):
+                    if a not in allnew:
+                        allnew.append(a)
+            os.unlink(out)
+        except Exception as e:
+            info.append({"exe": exe, "error": str(e)[:200], "rc": p.returncode})
+    path = os.path.join(build.BUILD, "corpus-%s.json" % prop)
+    with open(path, "w") as f:
+        json.dump(allnew, f)
+    core.ENV["VERIF_CORPUS"] = path
+    return {"addresses_added_to_every_pool": len(allnew), "per_build": info}
+
+
+def corpus_plans(exe):
+    import subprocess
+    try:
+        p = subprocess.run([exe, "probe"], stdout=subprocess.PIPE, stderr=subprocess.PIPE, env=core.ENV, cwd=core.VERIF, timeout=300)
+        return int(json.loads(p.stdout.decode("latin-1").strip().splitlines()[0])["corpus_plans"])
+    except Exception:
+        return 470
+
+
 def handle_candidates(prop, batches, budget=300, limit=4):
     """-> (violations, known_lines, nondet_msgs)"""
     violations, known_lines, nondet = [], [], []
@@ -194,6 +227,7 @@ def c13(tier, seed):
     W = 8 if tier == "quick" else min(16, core.ncpu())
     exe, ext = build.build_hist("idn2")
     build_info = {"real_or_stub": REAL_STUB["idn2"], "library_externals": ext, "tree": build.tree_fingerprint()}
+    build_info["corpus_growth"] = grow_corpus("C13", [exe], seed, 200000 if tier == "quick" else 3000000)
     det = determinism_selftest(exe, "C13", ["nofault", "fault"], seed, 160 if tier == "quick" else 2000, W, 3)
     # quick: a fixed amount of work (so that two runs of the same tree report the same coverage) under a generous time cap;
     # thorough: as much as the time allows
@@ -258,6 +292,7 @@ def c19(tier, seed):
     W = 8 if tier == "quick" else min(16, core.ncpu())
     exe, ext = build.build_hist("idn2")
     build_info = {"real_or_stub": REAL_STUB["idn2"], "library_externals": ext, "tree": build.tree_fingerprint()}
+    build_info["corpus_growth"] = grow_corpus("C19", [exe], seed, 200000 if tier == "quick" else 3000000)
     det = determinism_selftest(exe, "C19", ["single", "multi"], seed, 160 if tier == "quick" else 2000, W, 3)
     nbase = 2 if tier == "quick" else 40
     per_base = 50 * 30 * 2 * 3       # positions x codes x (first | second IDN-library call) x buffer modes
@@ -351,6 +386,7 @@ def c18(tier, seed):
         exes[bk], exts[bk] = build.build_hist(bk)
     build_info = {"real_or_stub": REAL_STUB["idn2"][:2] + REAL_STUB["idn"] + REAL_STUB["idnkit"],
                   "library_externals": exts, "tree": build.tree_fingerprint()}
+    build_info["corpus_growth"] = grow_corpus("C18", [exes[bk] for bk in ("idn2", "idn", "idnkit")], seed, 150000 if tier == "quick" else 2000000)
     det = determinism_selftest(exes["idnkit"], "C18", ["lockstep-fault", "ctxfault"], seed, 120 if tier == "quick" else 1500, W, 3)
     secs = 90 if tier == "quick" else 240
     lcnt = 3000 if tier == "quick" else 10**8
@@ -359,7 +395,7 @@ def c18(tier, seed):
     lock_info = {}
     for cfg in ("corpus", "small", "lockstep", "lockstep-fault"):
         if cfg == "corpus":
-            bs, ncommon, mism = lockstep_compare("C18", seed, cfg, exes, 470, 0, W)
+            bs, ncommon, mism = lockstep_compare("C18", seed, cfg, exes, corpus_plans(exes["idn2"]), 0, W)
         elif cfg == "small":    # every op sequence up to length 3 (thorough: 4) over the 21-symbol alphabet, in all three builds
             bs, ncommon, mism = lockstep_compare("C18", seed, cfg, exes, 21 + 21**2 + 21**3 + (21**4 if tier == "thorough" else 0), 0, W)
         else:
